@@ -281,3 +281,42 @@ class StartWatchers(object):
         if started != want:
             bad.add('post[priority-order-and-pacing]')
         return bad
+
+
+@register('circus.commands.restart:execute_watcher_start_stop_restart.watcher_iter_func')
+class RestartIterFunc(object):
+    """the real closure built by execute_watcher_start_stop_restart, captured through its watchers_function hook"""
+    def from_model(self, m):
+        return []
+
+    def enumerate(self):
+        for prios in ([1, 2], [2, 1], [0, 5, 3], [3, 3, 1], [7, 0, 7, 2]):
+            for reverse in (True, False, None):
+                yield {'priorities': prios, 'reverse': reverse}
+
+    def run(self, inp):
+        from circus.commands.restart import execute_watcher_start_stop_restart
+        from circus.commands.start import Start
+        a = bare_arbiter(['web-%d' % i for i in range(len(inp['priorities']))])
+        for w, p in zip(a.watchers, inp['priorities']):
+            w.priority = p
+        a.get_watcher = lambda name: a._watchers_names[name.lower()]
+        got = {}
+
+        def watchers_function(watcher_iter_func=None):
+            got['f'] = watcher_iter_func
+        execute_watcher_start_stop_restart(Start(), a, {'name': 'web-*'}, 'start', watchers_function, None)
+        f = got['f']
+        res = f() if inp['reverse'] is None else f(reverse=inp['reverse'])
+        return {'order': [w.priority for w in res], 'n': len(res),
+                'same_set': sorted(map(id, res)) == sorted(map(id, a.watchers))}
+
+    def check(self, inp, obs):
+        bad = set()
+        rev = True if inp['reverse'] is None else inp['reverse']
+        o = obs['order']
+        if not all((o[i] >= o[i + 1]) if rev else (o[i] <= o[i + 1]) for i in range(len(o) - 1)):
+            bad.add('post[sorted-by-priority]')
+        if obs['n'] != len(inp['priorities']) or not obs['same_set']:
+            bad |= set(['post[1]', 'post[2]', 'post[3]'])
+        return bad
